@@ -78,8 +78,12 @@ int colamd(int n_row, int n_col, int Alen, int A[], int p[], double knobs[COLAMD
   if (0 <= g_k && g_k < in_nnz && g_k < NZ) __CPROVER_assert(ROOM(A) > (size_t) g_k * sizeof(int) && A[g_k] == in_rowind[g_k], "A[k] == rowind[k] for k < nnz");
   if (0 <= g_c && g_c <= in_n && g_c <= CAP) __CPROVER_assert(ROOM(p) > (size_t) g_c * sizeof(int) && p[g_c] == in_colptr[g_c], "p[c] == colptr[c] for c <= n");
   /* effects */
-  if (Alen > 0) __CPROVER_havoc_slice(A, (size_t) Alen * sizeof(int));
-  __CPROVER_havoc_slice(p, ((size_t) n_col + 1) * sizeof(int));
+  /* A[0..Alen) and p[0..n_col] are destroyed.  Both blocks come from the allocator model above (asserted: they end with their object and have
+   * exactly the room checked), so the whole BLOCK-sized objects are havocked: a superset of the two slices (the bytes in front of a block are
+   * never read) with a CONSTANT size -- a havoc_slice of symbolic size made the formula 6.6M variables / 29M clauses. */
+  __CPROVER_assert(__CPROVER_OBJECT_SIZE(A) == BLOCK && __CPROVER_OBJECT_SIZE(p) == BLOCK, "colamd's arrays are blocks of the allocator model");
+  __CPROVER_havoc_slice((char *) A - __CPROVER_POINTER_OFFSET(A), BLOCK);
+  __CPROVER_havoc_slice((char *) p - __CPROVER_POINTER_OFFSET(p), BLOCK);
   __CPROVER_havoc_slice(stats, COLAMD_STATS * sizeof(int));
   g_log.colamd_ret = nondet_bool() ? 1 : 0;
 #define PUT(k) if (k < CAP && k < n_col) p[k] = in_q[k < CAP ? k : 0];
